@@ -15,7 +15,7 @@
 (* The state machine feeds items one at a time; `encoded` records which    *)
 (* encoder fragment(s) each item reached.                                  *)
 (***************************************************************************)
-EXTENDS Naturals, Sequences, FiniteSets, TLC, Json
+EXTENDS Naturals, Sequences, FiniteSets, TLC, Json, SequencesExt
 
 CONSTANTS NObjFixed   \* TRUE: gcp.do_math routes an 'N' objective to the exponential-cone encoder (repaired)
 
@@ -75,11 +75,12 @@ Items == {[x |-> x, pos |-> "constr", summed |-> FALSE] : x \in XTypes \cup Othe
          \cup {[x |-> x, pos |-> "obj", summed |-> FALSE] : x \in {y \in XTypes : CanBeObjective(y)}}
          \cup {[x |-> x, pos |-> p, summed |-> TRUE] : x \in {y \in XTypes : HasSum(y)}, p \in {"constr", "obj"}}
 
-Init == todo = Items /\ encoded = {} /\ dropped = {} /\ replaced = {}
+\* the items are fed in one fixed order (the routing of one item does not depend on the others)
+Init == todo = SetToSeq(Items) /\ encoded = {} /\ dropped = {} /\ replaced = {}
 
 Feed(it) ==
-    /\ it \in todo
-    /\ todo' = todo \ {it}
+    /\ todo # <<>> /\ it = Head(todo)
+    /\ todo' = Tail(todo)
     /\ LET encs == IF it.pos = "constr" THEN {StList(it.x)} ELSE ObjEncoders(it.x) IN
        /\ encoded' = encoded \cup {[item |-> it, encs |-> encs]}
        /\ dropped' = IF encs = {} THEN dropped \cup {it} ELSE dropped
@@ -95,5 +96,5 @@ EncoderMatchesAtom == \A e \in encoded : e.encs # {} => IdealEncoder(e.item.x) \
 NothingReplaced == replaced = {}
 KnownReplaced == \A it \in replaced : it.summed /\ HasSum(it.x)
 
-ExportDone == todo # {} \/ PrintT(ToJson([encoded |-> encoded, dropped |-> dropped, replaced |-> replaced]))
+ExportDone == todo # <<>> \/ PrintT(ToJson([encoded |-> encoded, dropped |-> dropped, replaced |-> replaced]))
 =============================================================================
